@@ -184,13 +184,67 @@ def _worker(args):
     return rec
 
 
+def _chunk_worker(items):
+    return [_worker(it) for it in items]
+
+
+def _isolated(ctx, items, timeout=3600):
+    """runs `items` in one fresh process; returns the records, or None when the process died / gave nothing back"""
+    r, w = ctx.Pipe(duplex=False)
+    def target():
+        try:
+            w.send(_chunk_worker(items))
+        finally:
+            w.close()
+    p = ctx.Process(target=target)
+    p.start()
+    w.close()
+    out = None
+    try:
+        if r.poll(timeout):
+            out = r.recv()
+    except (EOFError, OSError):
+        out = None
+    p.join(5)
+    if p.is_alive():
+        p.kill(); p.join()
+    return out, p.exitcode
+
+
 def run_cases(cases, workers=None, chunk=32):
-    """runs all cases; returns the list of records (same order)"""
+    """runs all cases; returns the list of records (same order).  Every chunk of cases runs in a fresh process of its own, which
+    reports through its own pipe: there is no queue or lock shared between workers, so a process that dies (a crash of the host
+    runtime that no `except` can see) or stalls loses only its chunk — which is then run again case by case, and the case that
+    kills or stalls its process is recorded as a crash — and can never hang the check.  (A pool with a shared task queue did
+    hang: thorough C13, all workers waiting for the queue's lock.)"""
     workers = workers or min(16, os.cpu_count() or 4)
     cases = list(cases)
     if len(cases) < 64 or workers <= 1:
         return [_worker((i, c)) for i, c in enumerate(cases)]
+    from concurrent.futures import ThreadPoolExecutor
     ctx = mp.get_context('fork')
-    with ctx.Pool(workers) as pool:
-        recs = pool.map(_worker, list(enumerate(cases)), chunksize=max(1, min(chunk, len(cases) // (workers * 4))))
+    items = list(enumerate(cases))
+    cs = max(1, min(chunk, len(cases) // (workers * 4)))
+    chunks = [items[i:i + cs] for i in range(0, len(items), cs)]
+    recs = [None] * len(items)
+
+    def crashed(it, code, why):
+        return {'idx': it[0], 'tag': it[1].tag, 'status': 'crash', 'nontrivial': it[1].nontrivial, 'impl_kind': 'crash',
+                'crash': f'the process evaluating the case {why} (exit code {code}): a crash or stall of the host runtime',
+                'detail': {'impl': {'kind': 'crash', 'crash': f'process {why}, exit code {code}'}}}
+
+    def do(ch):
+        out, code = _isolated(ctx, ch, timeout=max(900.0, 4 * sum(float(c.timeout) for _, c in ch)))
+        if out is not None:
+            return out
+        res = []
+        for it in ch:                 # the chunk kills or stalls its process: find the case(s)
+            o, c1 = _isolated(ctx, [it], timeout=max(300.0, 6 * float(it[1].timeout)))
+            res.append(o[0] if o is not None else crashed(it, c1, 'died' if c1 not in (None, -9) else 'did not finish'))
+        return res
+
+    with ThreadPoolExecutor(workers) as ex:
+        for out in ex.map(do, chunks):
+            for r in out:
+                recs[r['idx']] = r
     return recs
